@@ -193,6 +193,18 @@ def summaries(tier, seed):
             evals += 1
             if got.get("skipExportGlyphs") is not marker or "nonsense" in got:
                 fails.append(("prune_unknown_kwargs", name, got))
+    # the constructor summary used by _GlyphSet.from_layer (contracts/c13.py _skip_filter_ctor): SkipExportGlyphsFilter(names) holds a
+    # frozenset with exactly the members of names and includes every glyph
+    from ufo2ft.filters.skipExportGlyphs import SkipExportGlyphsFilter
+
+    pool = ["a", "b", "c", ".notdef", "a.alt"]
+    for k in range(10 if tier == "quick" else 200):
+        names = [rng.choice(pool) for _ in range(rng.randint(0, 5))]
+        f = SkipExportGlyphsFilter(list(names))
+        evals += 1
+        got = f.options.skipExportGlyphs
+        if not isinstance(got, frozenset) or got != frozenset(names) or f.include(object()) is not True or hasattr(f, "context"):
+            fails.append(("SkipExportGlyphsFilter.__init__", names, repr(got)))
     return evals, fails
 
 
@@ -599,7 +611,7 @@ def _run(tier, seed, res):
     try:
         ev, fails = summaries(tier, seed)
         res["evaluations"] += ev
-        res["bounded"].append({"what": "summaries: getInterpolatedLayers, ensureCompositeDefinedAtComponentLocations (frame), prune_unknown_kwargs", "bound": f"{ev} run-time evaluations on generated master families", "failures": len(fails)})
+        res["bounded"].append({"what": "summaries: getInterpolatedLayers, ensureCompositeDefinedAtComponentLocations (frame), prune_unknown_kwargs, SkipExportGlyphsFilter(names) constructor", "bound": f"{ev} run-time evaluations on generated master families", "failures": len(fails)})
         for f in fails[:2]:
             res["violations"].append(_violation(f"C13.summary.{f[0].split(':')[-1]}", {"input": f[1], "observed": f[2]}))
     except Exception:
